@@ -2,6 +2,7 @@ import FinamModel.DriverUtil
 import FinamModel.Sched
 import FinamModel.Output
 import FinamModel.Net
+import FinamModel.NetC
 /-! Driver handlers for the scheduler model (C01–C05, C13, C20). -/
 namespace Finam.Driver.Sched
 open Lean Finam Finam.Driver
@@ -78,6 +79,33 @@ def handleNetRun (j : Json) : Json :=
     ("end", match e with | .done => Json.str "done" | .err x => jSErr x | .outOfFuel => Json.str "outOfFuel"),
     ("final", jList (fun c => jInt (getNow c)) n'.sch.comps)]
 
+def jOptToInt (x : Json) : Option Int := match x with | .null => none | v => some (asInt v)
+
+/-- the run loop on the network with push-based adapters as relay nodes -/
+def handleNetCRun (j : Json) : Json :=
+  let s := parseState j
+  let hist := (getArr j "hist").map fun l => (arr l).map fun t => (⟨asInt t, ()⟩ : Entry Unit)
+  let neps := (getArr j "neps").map asNat
+  let tab := (getArr j "links").map fun e => match arr e with
+    | [c, i, node, k] => (asNat c, asNat i, asNat node, asNat k) | _ => (0, 0, 0, 0)
+  let relays := (getArr j "relays").map fun e => match arr e with | [r, o, k] => (asNat r, asNat o, asNat k) | _ => (0, 0, 0)
+  let find := fun (c i : Nat) => tab.find? (fun e => e.1 == c && e.2.1 == i)
+  let n : NetC := { sch := s,
+                    os := fun o =>
+                      let l0 := if hasKey j "last" then ((getArr j "last").getD o Json.null |> arr).map jOptToInt
+                                else List.replicate (neps.getD o 0) none
+                      let r0 := if hasKey j "ret" then ((getArr j "ret").getD o Json.null |> arr).map fun t => (⟨asInt t, ()⟩ : Entry Unit)
+                                else hist.getD o []
+                      ⟨hist.getD o [], r0, l0⟩,
+                    ep := fun c i => match find c i with | some e => e.2.2.2 | none => 0,
+                    node := fun c i => match find c i with | some e => e.2.2.1 | none => 0,
+                    relays := relays }
+  let (ups, e, n') := netRunLoopC (List.range hist.length) (getNat j "fuel") n (getInt j "end") []
+  Json.mkObj [
+    ("updates", jList (fun p => Json.arr #[jNat p.1, jList jNat p.2.1, Json.bool p.2.2]) ups),
+    ("end", match e with | .done => Json.str "done" | .err x => jSErr x | .outOfFuel => Json.str "outOfFuel"),
+    ("final", jList (fun c => jInt (getNow c)) n'.sch.comps)]
+
 def handleNeed (j : Json) : Json :=
   let dp := (getArr j "dp").map (fun l => (arr l).map asInt)
   let ads := (getArr j "ads").map parseAd
@@ -122,6 +150,6 @@ def handleC13 (j : Json) : Json :=
               ("need0", jOptInt (need (List.replicate ndp []) ads (getInt j "probe")))]
 
 def handlers : List (String × (Json → Json)) :=
-  [("sched_run", handleRun), ("sched_run_ord", handleRunOrd), ("net_run", handleNetRun), ("sched_need", handleNeed), ("sched_deps", handleDeps), ("c13", handleC13)]
+  [("sched_run", handleRun), ("sched_run_ord", handleRunOrd), ("net_run", handleNetRun), ("netc_run", handleNetCRun), ("sched_need", handleNeed), ("sched_deps", handleDeps), ("c13", handleC13)]
 
 end Finam.Driver.Sched
